@@ -101,6 +101,9 @@ type ExpSim struct {
 	// PreTrials > 0: the Experiment object is handed to Execute with a Trials slice of that length already allocated
 	// (a reused experiment object, or one sized by the caller); 0 = nil slice
 	PreTrials int
+	// WinnerRecordWhenUnsolved: the evaluator also fills the winner fields of generations it does not report solved (a
+	// two-stage evaluator that found a candidate which then failed the second test does that)
+	WinnerRecordWhenUnsolved bool
 	// NoBubble forces the real clock even when a fake one is available (C17 compares both)
 	NoBubble bool
 	// OnEval, when set, observes the population at every evaluator entry
@@ -207,6 +210,11 @@ func (s *ExpSim) GenerationEvaluate(ctx context.Context, pop *genetics.Populatio
 		epoch.WinnerGenes = best.Genotype.Extrons()
 		epoch.WinnerEvals = s.Opts.PopSize*epoch.Id + best.Genotype.Id
 		epoch.Champion = best
+	}
+	if s.WinnerRecordWhenUnsolved && !epoch.Solved && best != nil && (gen+trial)%2 == 0 {
+		epoch.WinnerNodes = len(best.Genotype.Nodes)
+		epoch.WinnerGenes = best.Genotype.Extrons()
+		epoch.WinnerEvals = s.Opts.PopSize*epoch.Id + best.Genotype.Id + 1
 	}
 	epoch.FillPopulationStatistics(pop)
 	if f := s.faultAt(FaultCancelEvalExit, trial, gen); f != nil {
